@@ -337,7 +337,7 @@ func H_C14_eol(kind, a int) {
 		if style == 0 {
 			check(vsame(eolToLF(h2), e1), "C14.eol.crlf")
 		} else {
-			check(vsame(eolToLF(h2), e1), "C14.eol.cr")
+			check(vsame(crToLF(h2), e1), "C14.eol.cr")
 		}
 	}
 	vdigest(h1)
@@ -376,7 +376,7 @@ func H_C14_eol_stream(kind, a int) {
 	if style == 0 {
 		check(vsame(eolToLF(h2), e1), "C14.eol.crlf.stream")
 	} else {
-		check(vsame(eolToLF(h2), e1), "C14.eol.cr.stream")
+		check(vsame(crToLF(h2), e1), "C14.eol.cr.stream")
 	}
 	vdigest(h1)
 }
